@@ -3,6 +3,7 @@ package main
 import (
 	_ "verif/mc/checks/c01"
 	_ "verif/mc/checks/c02"
+	_ "verif/mc/checks/c04"
 	_ "verif/mc/checks/c05"
 	_ "verif/mc/checks/c06"
 	_ "verif/mc/checks/c07"
